@@ -49,10 +49,15 @@ def seeded():
         rows.append('| `%s` | %s | %s | %s | %s |' % (i, tgt, short(m.get('summary'), 230), short(m.get('needs'), 200), cs))
     return '\n'.join(rows)
 
+def asbuilt():
+    n = json.load(open(os.path.join(HERE, 'manifest_notes.json')))
+    return '\n'.join('* **C%02d.** %s' % (i, n['C%02d' % i]['text']) for i in range(1, 21))
+
+
 def main():
     p = os.path.join(HERE, 'DESIGN.md')
     s = open(p).read()
-    for name, fn in (('BOUNDS', bounds), ('SEEDED', seeded)):
+    for name, fn in (('BOUNDS', bounds), ('SEEDED', seeded), ('ASBUILT', asbuilt)):
         b, e = '<!-- %s-BEGIN -->' % name, '<!-- %s-END -->' % name
         if b in s and e in s:
             s = s[:s.index(b) + len(b)] + '\n' + fn() + '\n' + s[s.index(e):]
